@@ -136,9 +136,9 @@ func (g *Gen) Op(name string, ac *chain.Actor, ctx sdk.Context) sdk.Msg {
 		min := math.NewInt(1)
 		if w.ElysMarketPool != 0 && r.Intn(6) == 0 {
 			if r.Intn(2) == 0 {
-				return &ammtypes.MsgSwapExactAmountIn{Sender: me, Routes: []ammtypes.SwapAmountInRoute{{PoolId: w.ElysMarketPool, TokenOutDenom: "uelys"}}, TokenIn: chain.CoinI("uusdc", g.Amt(1, 5e10)), TokenOutMinAmount: min, Recipient: rcp}
+				return &ammtypes.MsgSwapExactAmountIn{Sender: me, Routes: []ammtypes.SwapAmountInRoute{{PoolId: w.ElysMarketPool, TokenOutDenom: w.SecondAsset}}, TokenIn: chain.CoinI("uusdc", g.Amt(1, 5e10)), TokenOutMinAmount: min, Recipient: rcp}
 			}
-			return &ammtypes.MsgSwapExactAmountIn{Sender: me, Routes: []ammtypes.SwapAmountInRoute{{PoolId: w.ElysMarketPool, TokenOutDenom: "uusdc"}}, TokenIn: chain.CoinI("uelys", g.Amt(1, 2e10)), TokenOutMinAmount: min, Recipient: rcp}
+			return &ammtypes.MsgSwapExactAmountIn{Sender: me, Routes: []ammtypes.SwapAmountInRoute{{PoolId: w.ElysMarketPool, TokenOutDenom: "uusdc"}}, TokenIn: chain.CoinI(w.SecondAsset, g.Amt(1, 2e10)), TokenOutMinAmount: min, Recipient: rcp}
 		}
 		switch r.Intn(6) {
 		case 0:
@@ -255,7 +255,7 @@ func (g *Gen) Op(name string, ac *chain.Actor, ctx sdk.Context) sdk.Msg {
 			return &ammtypes.MsgJoinPool{Sender: me, PoolId: 2, MaxAmountsIn: sdk.NewCoins(chain.CoinI(d2, g.Amt(1e3, 5e10))), ShareAmountOut: math.NewInt(1)}
 		}
 		if w.ElysMarketPool != 0 && r.Intn(4) == 0 {
-			d = []string{"uusdc", "uelys"}[r.Intn(2)]
+			d = []string{"uusdc", w.SecondAsset}[r.Intn(2)]
 			return &ammtypes.MsgJoinPool{Sender: me, PoolId: w.ElysMarketPool, MaxAmountsIn: sdk.NewCoins(chain.CoinI(d, g.Amt(1e3, 5e10))), ShareAmountOut: math.NewInt(1)}
 		}
 		return &ammtypes.MsgJoinPool{Sender: me, PoolId: 1, MaxAmountsIn: sdk.NewCoins(chain.CoinI(d, g.Amt(1e3, 5e10))), ShareAmountOut: math.NewInt(1)}
@@ -298,7 +298,7 @@ func (g *Gen) Op(name string, ac *chain.Actor, ctx sdk.Context) sdk.Msg {
 			out = []string{"uusdc", "uatom"}[r.Intn(2)]
 		}
 		if pid == w.ElysMarketPool && r.Intn(2) == 0 {
-			out = []string{"uusdc", "uelys"}[r.Intn(2)]
+			out = []string{"uusdc", w.SecondAsset}[r.Intn(2)]
 		}
 		sh := have.QuoRaw(int64(2 + r.Intn(8)))
 		if g.hostile() {
@@ -441,16 +441,20 @@ func (g *Gen) Op(name string, ac *chain.Actor, ctx sdk.Context) sdk.Msg {
 		}
 		if g.LevPool2 && w.ElysMarketPool != 0 && r.Intn(3) == 0 {
 			// the second market: ELYS on the second oracle pool
+			// (or, in some worlds, a second market for the same trading asset as pool 1)
 			el := w.Prices["ELYS"]
+			if w.SecondAsset == "uatom" {
+				el = atom
+			}
 			ratio := el.Quo(atom)
 			c2 := col
 			if c2 == "uatom" {
-				c2 = "uelys"
+				c2 = w.SecondAsset
 			}
 			if !sl.IsZero() {
 				sl = sl.Mul(ratio)
 			}
-			return &perptypes.MsgOpen{Creator: me, Position: pos, Leverage: chain.DecF(lev), TradingAsset: "uelys", Collateral: chain.CoinI(c2, g.Amt(1e4, 5e9)), TakeProfitPrice: tp.Mul(ratio), StopLossPrice: sl, PoolId: w.ElysMarketPool}
+			return &perptypes.MsgOpen{Creator: me, Position: pos, Leverage: chain.DecF(lev), TradingAsset: w.SecondAsset, Collateral: chain.CoinI(c2, g.Amt(1e4, 5e9)), TakeProfitPrice: tp.Mul(ratio), StopLossPrice: sl, PoolId: w.ElysMarketPool}
 		}
 		return &perptypes.MsgOpen{Creator: me, Position: pos, Leverage: chain.DecF(lev), TradingAsset: "uatom", Collateral: chain.CoinI(col, g.Amt(1e4, 5e9)), TakeProfitPrice: tp, StopLossPrice: sl, PoolId: 1}
 	case "perpClose":
